@@ -48,7 +48,7 @@ class NarwhalsMaterializer(FormulaMaterializer):
     @override
     def _is_categorical(self, values: Any) -> bool:
         if nw.dependencies.is_narwhals_series(values):
-            if not values.dtype.is_numeric():
+            if not values.dtype.is_numeric() and values.dtype != nw.Boolean:
                 return True
         return super()._is_categorical(values)
 
